@@ -151,6 +151,8 @@ def check_key(ctx, key):
 
 # ---- signature numbers -----------------------------------------------------------------------------------
 def check_signum(ctx, n):
+    if isinstance(n, list):  # ["big", base, exponent, sign]: an integer too long to be written out in a replay file
+        n = n[3] * n[1] ** n[2]
     if -7 <= n <= 7:
         g = ctx.ok("get_key", keys.get_key, n)
         if not failed(g):
@@ -254,6 +256,8 @@ def sub_signums(ctx, shard, n):
     ctx.exhaustive("signature numbers", "-20..20", 41)
     ctx.enumerate("signum", check_signum, range(-20, 21))
     ctx.given("signum", check_signum, st.integers() | st.integers(-40, 40), 300 if ctx.quick else 5000)
+    # integers far outside every machine range (hundreds to tens of thousands of digits)
+    ctx.enumerate("signum", check_signum, [["big", b, e, sg] for b in (2, 10) for e in (64, 400, 1024, 4300, 5000, 20000) for sg in (1, -1)])
 
 
 NEAR = ["", "H", "h", "c##", "CB", "AB", "Ab ", " Ab", "Ab\n", "cb", "A#", "Fb", "G#", "D#", "E#", "B#", "db", "gb", "fb", "e#",
